@@ -27,6 +27,9 @@ SCRATCH_ROOT = os.environ.get("VERIF_SCRATCH", "/tmp/verif-scratch")
 sys.path.insert(0, os.path.join(VERIF, "lib"))
 import registry  # noqa: E402
 
+EVID_DIR = os.environ.get("VERIF_EVIDENCE_DIR", os.path.join(VERIF, "evidence"))
+REPLAY_DIR = os.environ.get("VERIF_REPLAY_DIR", os.path.join(VERIF, "replays"))
+LOG_DIR = os.environ.get("VERIF_LOG_DIR", os.path.join(VERIF, "logs"))
 MEM_KB = int(os.environ.get("VERIF_MEM_GB", "20")) * 1024 * 1024
 
 FUNC_FLAGS = ["-Z", "unstable-options", "--no-memory-safety-checks", "--no-undefined-function-checks"]
@@ -221,7 +224,7 @@ def parse_log(path):
     r["user_asserts_proved"] = 0
     for c, s in st.items():
         d = desc.get(c, "")
-        if s == "SUCCESS" and ".assertion." in c and re.match(r"^C\d\d", d):
+        if s == "SUCCESS" and ".assertion." in c and re.match(r"^\"?C\d\d", d):
             r["user_asserts_proved"] += 1
         if ".cover." in c or d.startswith("cover condition") or s in ("SATISFIED", "UNSATISFIABLE"):
             r["covers"][d or c] = s
@@ -275,8 +278,12 @@ def run_harness(h, keep=False, logdir=None):
                 res["status"] = "PASS"
         elif p["verdict"] == "FAILED":
             real = [f for f in p["failed"] if "unwinding assertion" not in f]
+            framework = [f for f in real if f.startswith(("verif_oracle:", "bigint model:", "harness:"))]
             if not real:
                 res["reason"] = "unwinding bound too small (unwinding assertion failed)"
+            elif framework:
+                # a capacity / structural assertion of the framework itself, not a property of the code
+                res["reason"] = "framework bound exceeded: %s" % "; ".join(framework)
             else:
                 res["status"] = "CANDIDATE"
                 logf2 = os.path.join(logdir, h["name"] + ".cex.log")
@@ -347,7 +354,7 @@ def confirm(h, res, pid, logdir):
     """Replay a candidate counterexample. Returns (confirmed: bool, replay_path or None, details)."""
     crate = res["_crate"]
     tests = res.get("playback_tests") or []
-    os.makedirs(os.path.join(VERIF, "replays"), exist_ok=True)
+    os.makedirs(REPLAY_DIR, exist_ok=True)
     if not tests:
         return False, None, "kani produced no concrete playback test"
     pb = playback(h, crate, tests, logdir)
@@ -355,7 +362,7 @@ def confirm(h, res, pid, logdir):
     details = {"playback_dev": pb}
     if reproduced and h.get("replay_release", True):
         details["playback_release"] = playback(h, crate, tests, logdir, profile_release=True, write=False)
-    rp = os.path.join(VERIF, "replays", "%s-%s.json" % (pid, h["name"]))
+    rp = os.path.join(REPLAY_DIR, "%s-%s.json" % (pid, h["name"]))
     json.dump({"property": pid, "harness": harness_path(h), "module": h["module"],
                "features": h.get("features", []), "oracle_features": h.get("oracle_features", []),
                "failed_checks": res["failed"],
@@ -459,8 +466,8 @@ def write_evidence(pid, tier, seed, results, wall, violations, known_hits, hs):
         "wall_s": round(wall, 1),
         "violations": violations,
     }
-    os.makedirs(os.path.join(VERIF, "evidence"), exist_ok=True)
-    json.dump(ev, open(os.path.join(VERIF, "evidence", pid + ".json"), "w"), indent=1)
+    os.makedirs(EVID_DIR, exist_ok=True)
+    json.dump(ev, open(os.path.join(EVID_DIR, pid + ".json"), "w"), indent=1)
 
 
 def select(pid, tier, only):
@@ -512,7 +519,7 @@ def main(argv):
     if not hs:
         print("no harness for", pid, tier)
         return 2
-    logdir = os.path.join(VERIF, "logs", pid)
+    logdir = os.path.join(LOG_DIR, pid)
     os.makedirs(logdir, exist_ok=True)
     t0 = time.time()
     log("[check] property=%s tier=%s seed=%d harnesses=%d repo=%s" % (pid, tier, seed, len(hs), REPO))
@@ -596,7 +603,7 @@ def do_replay(pid, path):
         print("unknown harness in replay file")
         return 2
     h = hs[0]
-    logdir = os.path.join(VERIF, "logs", pid)
+    logdir = os.path.join(LOG_DIR, pid)
     os.makedirs(logdir, exist_ok=True)
     root, crate = make_scratch(h, "replay-" + hname)
     try:
